@@ -185,12 +185,21 @@ def impl_qucc(case):
             "_U": np.asarray(U, dtype=complex), "_gens": rec}
 
 
-def hubbard(L, t, u):
+def hubbard(L, t, u, peierls=None):
     qib = _ctx["qib"]
     lat = qib.lattice.IntegerLattice((L,), pbc=False)
     field = qib.field.Field(qib.field.ParticleType.FERMION, lat)
     ham = qib.operator.FermiHubbardHamiltonian(field, t, u, False)
-    return field, qib.transform.jordan_wigner_encode_field_operator(ham.as_field_operator())
+    fop = ham.as_field_operator()
+    if peierls is not None:
+        # complex hopping: the kinetic coefficients -t get the phase e^{+i phi} above and e^{-i phi} below the diagonal; the operator stays
+        # Hermitian and number conserving, its matrix has imaginary entries
+        for term in fop.terms:
+            if len(term.opdesc) == 2:
+                c = np.array(term.coeffs, dtype=complex)
+                ph = np.exp(1j * peierls)
+                term.coeffs = np.triu(c, 1) * ph + np.tril(c, -1) * np.conj(ph) + np.diag(np.diag(c))
+    return field, qib.transform.jordan_wigner_encode_field_operator(fop)
 
 
 def op_strings(pauli_op):
@@ -204,12 +213,20 @@ def op_strings(pauli_op):
 def impl_run(case):
     qib, vqe, ans = _ctx["qib"], _ctx["vqe"], _ctx["ans"]
     L = case["L"]
-    field, pham = hubbard(L, case["t"], case["u"])
+    field, pham = hubbard(L, case["t"], case["u"], case.get("peierls"))
     x0 = np.array([float(uncq([v, "0/1"]).real) for v in case["x0"]])
     opt = qib.algorithms.vqe.Optimizer(x0=x0, method=case["method"], tol=1e-6, options={"maxiter": case["maxiter"]})
     a = ans.qUCC(field, case["exc"])
     psi0 = np.zeros(2 ** L)
     psi0[case["basis"]] = 1.0
+    if case.get("complex_psi0"):
+        # a superposition with complex amplitudes inside the particle sector of `basis`
+        pcs = popcounts(L)
+        others = [int(b) for b in np.nonzero(pcs == pcs[case["basis"]])[0] if int(b) != case["basis"]]
+        psi0 = psi0.astype(complex)
+        if others:
+            psi0[case["basis"]] = 0.6
+            psi0[others[0]] = 0.8j
     energies = []
     real_measure = vqe.measure_expectation_statevector
 
@@ -676,8 +693,20 @@ def gen_run(tier, rng):
                        "x0": [qstr(v) for v in x0], "method": "COBYLA", "maxiter": 25, "start": start, "reusebuf": True}
 
 
+def gen_run_complex(tier, rng):
+    """complex hopping (Peierls phase) and a trial state with complex amplitudes: energies are still real, but neither the matrix nor the
+    state is; derivative-free optimisers that accept the library's energy function for such inputs"""
+    for L, basis, method in ([(2, 1, "Nelder-Mead"), (3, 3, "Powell")] if tier != "thorough" else
+                             [(2, 1, "Nelder-Mead"), (2, 2, "Powell"), (3, 3, "Powell"), (3, 5, "Nelder-Mead"), (3, 1, "Nelder-Mead")]):
+        npar = L ** 2
+        x0 = [round(rng.uniform(-1, 1), 3) for _ in range(npar)]
+        yield {"op": "vqe.run", "L": L, "exc": "s", "basis": basis, "t": -1.0, "u": float(rng.choice([0.5, 2.0])), "peierls": float(rng.choice([0.7, 1.5707963267948966, 2.1])),
+               "complex_psi0": True, "x0": [qstr(v) for v in x0], "method": method, "maxiter": 40, "start": "random"}
+
+
 def gen_cases(tier, rng):
     yield from gen_qucc(tier, rng)
+    yield from gen_run_complex(tier, rng)
     yield from gen_expect(tier, rng)
     yield from gen_run(tier, rng)
 
